@@ -8,7 +8,8 @@ package main
 // Kinds: derefOptScalar (*x, x pointer to a basic type), derefRefValue (y.Value.f through a *…Ref),
 // derefOptStruct (y.g.f through a pointer field g of a repository struct), typeAssert (x.(T) without
 // comma-ok), index (x[i] / x[i:j] on slice, string, array), explicitPanic, bigFloat (big.NewFloat),
-// intDiv (integer / or % by a non-constant).
+// intDiv (integer / or % by a non-constant), nilMapWrite (m[k] = v where m is a field, a parameter or a result — not a
+// map made in the same function), nilFuncCall (a call through a func-typed struct field or package variable).
 // Guards read syntactically: nilCheck (an enclosing condition, a left operand of &&, `== nil ||`, or an
 // earlier `if x == nil { return/continue/break/panic }` in an enclosing block mentions the same
 // expression), lenCheck (same, with len(x) / a range index / a checked strings.Index result),
@@ -206,8 +207,37 @@ func panicSites(repo string) (string, error) {
 		var stack []ast.Node
 		rangeIdx := map[string]string{} // index identifier -> ranged expression text
 		checkedIdx := map[string]bool{} // identifiers compared with 0 / -1 / len somewhere in the function
+		madeHere := map[string]bool{}   // identifiers assigned from make(…) or a composite literal in this function
 		ast.Inspect(f.decl.Body, func(n ast.Node) bool {
 			switch x := n.(type) {
+			case *ast.AssignStmt:
+				for i, lhs := range x.Lhs {
+					id, ok := lhs.(*ast.Ident)
+					if !ok || i >= len(x.Rhs) {
+						continue
+					}
+					switch r := x.Rhs[i].(type) {
+					case *ast.CompositeLit:
+						madeHere[id.Name] = true
+					case *ast.CallExpr:
+						if f, ok := r.Fun.(*ast.Ident); ok && f.Name == "make" {
+							madeHere[id.Name] = true
+						}
+					}
+				}
+			case *ast.ValueSpec:
+				for i, id := range x.Names {
+					if i < len(x.Values) {
+						switch r := x.Values[i].(type) {
+						case *ast.CompositeLit:
+							madeHere[id.Name] = true
+						case *ast.CallExpr:
+							if f, ok := r.Fun.(*ast.Ident); ok && f.Name == "make" {
+								madeHere[id.Name] = true
+							}
+						}
+					}
+				}
 			case *ast.RangeStmt:
 				if id, ok := x.Key.(*ast.Ident); ok && id.Name != "_" {
 					rangeIdx[id.Name] = text(x.X)
@@ -381,7 +411,37 @@ func panicSites(repo string) (string, error) {
 				} else {
 					addSite("typeAssert", "commaOk", text(x))
 				}
+			case *ast.AssignStmt:
+				for _, lhs := range x.Lhs {
+					ie, ok := lhs.(*ast.IndexExpr)
+					if !ok {
+						continue
+					}
+					tv, ok := info.Types[ie.X]
+					if !ok {
+						continue
+					}
+					if _, isMap := tv.Type.Underlying().(*types.Map); !isMap {
+						continue
+					}
+					if id, ok := ie.X.(*ast.Ident); ok && madeHere[id.Name] {
+						continue // a map made in this function
+					}
+					g := "none"
+					if guardOf(text(ie.X), false) != "" {
+						g = "nilCheck"
+					}
+					addSite("nilMapWrite", g, text(lhs))
+				}
 			case *ast.CallExpr:
+				// a call through a func-typed struct field or package-level variable
+				if fv := funcValueCallee(info, x.Fun); fv != "" {
+					g := "none"
+					if guardOf(text(x.Fun), false) != "" {
+						g = "nilCheck"
+					}
+					addSite("nilFuncCall", g, text(x.Fun))
+				}
 				if id, ok := x.Fun.(*ast.Ident); ok && id.Name == "panic" {
 					if _, isBuiltin := info.Uses[id].(*types.Builtin); isBuiltin {
 						addSite("explicitPanic", "none", text(x))
@@ -558,6 +618,31 @@ func panicSites(repo string) (string, error) {
 	fmt.Fprintf(&sb, "-- individual sites: %d\n", total)
 	sb.WriteString("end KinModel.Gen\n")
 	return sb.String(), nil
+}
+
+// funcValueCallee: "field" / "pkgvar" when the callee expression is a func-typed struct field or package-level
+// variable (a value that can be nil), "" for functions, methods, locals and parameters
+func funcValueCallee(info *types.Info, fun ast.Expr) string {
+	switch f := fun.(type) {
+	case *ast.SelectorExpr:
+		if sel, ok := info.Selections[f]; ok && sel.Kind() == types.FieldVal {
+			if _, isFunc := sel.Type().Underlying().(*types.Signature); isFunc {
+				return "field"
+			}
+		}
+		if v, ok := info.Uses[f.Sel].(*types.Var); ok && !v.IsField() && v.Parent() == v.Pkg().Scope() {
+			if _, isFunc := v.Type().Underlying().(*types.Signature); isFunc {
+				return "pkgvar"
+			}
+		}
+	case *ast.Ident:
+		if v, ok := info.Uses[f].(*types.Var); ok && v.Pkg() != nil && v.Parent() == v.Pkg().Scope() {
+			if _, isFunc := v.Type().Underlying().(*types.Signature); isFunc {
+				return "pkgvar"
+			}
+		}
+	}
+	return ""
 }
 
 func onlyChecked(e ast.Expr, checked map[string]bool, base string, text func(ast.Node) string) bool {
